@@ -419,6 +419,21 @@ def finish(mod, total, tier, seed, wall, nshards):
                 lines.append(f"KNOWN-FINDING-STALE: property={prop} {fid} no longer reproduces")
     os.makedirs(os.path.join(VERIF, 'replays'), exist_ok=True)
     written = 0
+    # repaired findings suppress nothing; their canonical programs are replayed on every run, so a defect that returns is reported
+    # even if it were to slip through the bounds of the exploration
+    regressed = 0
+    for fid, k in sorted(known.items()):
+        if k['status'] == 'fixed' and k.get('snippet'):
+            st, out = run_snippet(k['snippet'])
+            if st != 'passes':
+                path = os.path.join(VERIF, 'replays', f"{prop}-fixed-{fid}.json")
+                with open(path, 'w') as f:
+                    json.dump(dict(property=prop, tier=tier, seed=seed, op='regression', kind='fixed-finding-returned', detail=dict(finding=fid, what=k['what'], commit=k.get('commit')),
+                                   expected='passes', got=st, count_in_group=1, python_snippet=k['snippet'], replay_output=out, repo=REPO), f, indent=1)
+                lines.append(f"VIOLATION property={prop} replay={path}")
+                lines.append(f"  # repaired finding {fid} ({k.get('commit')}) fails again: {k['what']}")
+                status = 1
+                regressed += 1
     harness_err = False
     for key, g in new_groups:
         v = g['first']
@@ -485,13 +500,13 @@ def finish(mod, total, tier, seed, wall, nshards):
         distinct_outcomes=len(total.outcomes), per_operation=dict(sorted(total.per_op.items())),
         model_accepts=dict(sorted(total.model_ok.items())), model_rejects=dict(sorted(total.model_rej.items())),
         widened_accepts=total.widened, pruned_after_deviation=total.pruned, disabled_events=total.disabled,
-        known_findings_hit=known_hit, caps_hit=total.caps, shards=nshards, max_depth=total.max_depth,
+        known_findings_hit=known_hit, fixed_findings_replayed=sum(1 for k in known.values() if k['status'] == 'fixed'), fixed_findings_regressed=regressed, caps_hit=total.caps, shards=nshards, max_depth=total.max_depth,
         extra=dict(total.extra), repo=REPO, options_after=list(get_options()),
         caches=[q for q, _ in find_caches()],
     )
     ev = dict(property_id=prop, tier=tier, seed=seed, level='model_checking', coverage=cov,
               assumptions=desc.get('assumptions', []), wall_s=round(wall, 2),
-              violations=sum(g['count'] for _, g in new_groups))
+              violations=sum(g['count'] for _, g in new_groups) + regressed)
     os.makedirs(os.path.join(VERIF, 'evidence'), exist_ok=True)
     with open(os.path.join(VERIF, 'evidence', f"{prop}.json"), 'w') as f:
         json.dump(ev, f, indent=1, default=repr)
